@@ -136,7 +136,6 @@ Proof.
 Qed.
 
 (** ... and the file a request path designates lies at the resolved path *)
-Lemma collapse_no_nul_irrelevant : True. Proof. exact I. Qed.
 Lemma find_file_key rel files p c : find_file rel files = Some (p, c) -> p = rel.
 Proof.
   induction files as [|[q d] r IH]; cbn [find_file]; [discriminate|].
@@ -338,7 +337,7 @@ Proof.
   - apply IH; [|exact Hu]. intros p sp' Hin. apply (Hh p sp'). right. exact Hin.
 Qed.
 
-(** the refusal and the preflight response are never admitted to the cache, whatever the status filter *)
+(** the refusal and the preflight response are never let into the cache, whatever the status filter *)
 Lemma wants_cache_denied filt b m : wants_cache_f filt b m denied_fat = false.
 Proof.
   unfold wants_cache_f. change (pref_caches (f_spref denied_fat)) with false.
